@@ -608,13 +608,13 @@ pub fn build_world(shapes: &[(Kind, Vec<u8>)]) -> DefiWorld {
         let b = match kind {
             Kind::One => b.call_function(
                 POOL_PACKAGE,
-                ONE_RESOURCE_POOL_BLUEPRINT_IDENT,
+                ONE_RESOURCE_POOL_BLUEPRINT,
                 ONE_RESOURCE_POOL_INSTANTIATE_IDENT,
                 OneResourcePoolInstantiateManifestInput { resource_address: res[0].into(), pool_manager_rule: rule!(allow_all).into(), owner_role: OwnerRole::None.into(), address_reservation: None },
             ),
             Kind::Two => b.call_function(
                 POOL_PACKAGE,
-                TWO_RESOURCE_POOL_BLUEPRINT_IDENT,
+                TWO_RESOURCE_POOL_BLUEPRINT,
                 TWO_RESOURCE_POOL_INSTANTIATE_IDENT,
                 TwoResourcePoolInstantiateManifestInput {
                     resource_addresses: (res[0].into(), res[1].into()),
@@ -625,7 +625,7 @@ pub fn build_world(shapes: &[(Kind, Vec<u8>)]) -> DefiWorld {
             ),
             Kind::Multi => b.call_function(
                 POOL_PACKAGE,
-                MULTI_RESOURCE_POOL_BLUEPRINT_IDENT,
+                MULTI_RESOURCE_POOL_BLUEPRINT,
                 MULTI_RESOURCE_POOL_INSTANTIATE_IDENT,
                 MultiResourcePoolInstantiateManifestInput {
                     resource_addresses: res.iter().map(|r| (*r).into()).collect(),
@@ -678,7 +678,7 @@ pub fn alphabet(cfg: &PoolCfg, rich: bool) -> Vec<Op> {
             }
         }
         _ => {
-            let mut all = |x: Decimal| vec![x; n];
+            let all = |x: Decimal| vec![x; n];
             push(Op::Contribute(all(one)));
             let mut v = all(one);
             v[0] = three;
@@ -799,6 +799,34 @@ pub fn run(ctx: Ctx) -> ! {
         ctx.finish(Level::ModelChecking, "replay of one recorded history", 0, false, serde_json::Map::new(), &[]);
     }
 
+    if std::env::var("C41_BENCH").is_ok() {
+        let cfg = &world.pools[4];
+        let m = PoolMachine { root: world.root.clone(), cfg: cfg.clone(), acct: world.acct.clone(), alphabet: alphabet(cfg, true), infos: Mutex::new(BTreeMap::new()), probes: AtomicU64::new(0) };
+        let t = std::time::Instant::now();
+        let mut st = m.init();
+        println!("init {:?}", t.elapsed());
+        let t = std::time::Instant::now();
+        for _ in 0..50 { let _s = st.sim.create_snapshot(); }
+        println!("snapshot x50 {:?}", t.elapsed());
+        let snap = st.sim.create_snapshot();
+        let t = std::time::Instant::now();
+        for _ in 0..50 { let _s = sim_from(&snap); }
+        println!("sim_from x50 {:?}", t.elapsed());
+        let t = std::time::Instant::now();
+        for _ in 0..50 { let _o = observe(&mut st.sim, &m.cfg, &m.acct); }
+        println!("observe x50 {:?}", t.elapsed());
+        let t = std::time::Instant::now();
+        for _ in 0..50 { let _ = m.step(&mut st, &m.alphabet[0]); }
+        println!("step(contribute, not live) x50 {:?}", t.elapsed());
+        st.live.set(true);
+        let t = std::time::Instant::now();
+        for _ in 0..50 { let _ = m.step(&mut st, &m.alphabet[0]); }
+        println!("step(contribute, live) x50 {:?}", t.elapsed());
+        let t = std::time::Instant::now();
+        for _ in 0..50 { let _ = m.step(&mut st, &Op::Redeem(Units::One)); }
+        println!("step(redeem) x50 {:?}", t.elapsed());
+        std::process::exit(0);
+    }
     // bounds: (depth for one-resource pools, depth for two/multi pools), wall cap for the whole run
     let (d_one, d_multi, wall_cap) = if ctx.quick() { (3usize, 3usize, 50.0) } else { (5, 4, 1080.0) };
     let mut total = BfsStats::default();
